@@ -9,6 +9,12 @@ hand-modelled and tied by the correspondence harness hx_snaptun):
 * `IdentityRegistryState::clean_expired` — that the purge predicate is the negation of `is_authorized`;
 * `IdentityRegistryState::add_identity`  — the supersession guard (`prev_identity != identity`) and the
   `retain` predicate that removes the identity from every other key;
+* `IdentityRegistry::update_state` — the statement classes in source order (`UPDATE_STEPS`: 0 acquire the write lock
+  with the guard bound to a named variable, 1 load+clone, 2 modifier, 3 store; `UPDATE_UNDER_WRITE_LOCK`): the
+  concurrency theorems run the program computed from this list, so a missing lock (or `let _ = ..lock()`) makes
+  `Conc.program_is_locked` fail; that `register` / `remove_expired` are single calls of it, that it is the only
+  writer of the `ArcSwap`, that `has_authorization` / `is_authorized` are one `load` each, that the lock is a
+  `std::sync::Mutex`; any other shape is an ExtractError;
 * `SnapTunServer::handle_{incoming,outgoing}_packet_with_session` — number of authorisation checks that
   return early (3: occupied entry, new handshake, outgoing), and the early return that keeps a handshake rejected by
   the freshly created tunnel from leaving a tunnel entry (fix 9197560);
